@@ -112,14 +112,14 @@ theorem stockDriven_sbc (it : Nat → K) (n : Nat) (stock : Nat → Nat → K) (
     (t c j : Nat) :
     (stockDriven it n stock sf).stockByCohort t c j
       = (stockDriven it n stock sf).inflow c j * dt it n c * sf t c j := by
-  unfold stockDriven stockDrivenFrom
+  unfold stockDriven stockDrivenFrom stockDrivenFromWith
   simp only [cohortMul_sd, toWholePeriod_apply]
 
 theorem stockDriven_obc (it : Nat → K) (n : Nat) (stock : Nat → Nat → K) (sf : Nat → Nat → Nat → K)
     (t c j : Nat) :
     (stockDriven it n stock sf).outflowByCohort t c j
       = (stockDriven it n stock sf).inflow c j * dt it n c * pdfTable sf t c j * (1 / dt it n t) := by
-  unfold stockDriven stockDrivenFrom
+  unfold stockDriven stockDrivenFrom stockDrivenFromWith
   exact computeOutflow_obc it n _ (pdfTable sf) t c j
 
 theorem stockDriven_tables (it : Nat → K) (n : Nat) (stock : Nat → Nat → K)
